@@ -345,7 +345,7 @@ static int ex_region(char *loc, int *beg, int *end)
 			loc++;
 		if (!*loc)
 			break;
-		if (*loc == ';')
+		if (*loc == ';' && *end > 0 && *end <= lbuf_len(xb))
 			xrow = *end - 1;
 		loc++;
 	}
